@@ -74,6 +74,9 @@ pub struct Domain {
     pub extreme_scripts: bool,
     /// seeks inside append sessions (memory-backed configurations only: O_APPEND differs by design)
     pub append_seeks: bool,
+    /// model-free workloads only: now and then a write handle is opened and kept open across later steps, and
+    /// dropped (published) later — the filesystem may have changed under it in between
+    pub hold_handles: bool,
 }
 
 pub fn weights_full() -> Vec<(&'static str, u32)> {
@@ -113,6 +116,7 @@ impl Domain {
             read_scripts: false,
             extreme_scripts: false,
             append_seeks: false,
+            hold_handles: false,
         }
     }
     pub fn untyped() -> Domain {
@@ -129,6 +133,7 @@ impl Domain {
             read_scripts: false,
             extreme_scripts: false,
             append_seeks: false,
+            hold_handles: true,
         }
     }
 }
